@@ -135,6 +135,29 @@ fn observe(s: &Session, op: &str, a: Node, b: Node) -> Pre {
     Pre { moved: b, moved_text: txt(b), follower, total: total_text(s) }
 }
 
+/// The self-merge geometry (finding `C05:move-changes-character-data`, fixed by xot eccbbb7), read
+/// off the implementation before the call: with consolidation on the moved node `b` is a text
+/// node between two text nodes `p b q`, and the call asks for the place `b` stands at once `p`
+/// and `q` have been merged: `append` to its own parent with `q` last, `insert_before` the node
+/// after `q`, and the mirror images `insert_after(q, b)` (the reference is merged away, `b` already
+/// follows `p`), `prepend` with `p` first; `replace(r, b)` with `r` directly after `q`.
+fn selfmerge_geometry(s: &Session, op: &str, a: Node, b: Node) -> Option<&'static str> {
+    if !s.cons_on || !s.xot.is_text(b) {
+        return None;
+    }
+    let p = s.xot.previous_sibling(b).filter(|&n| s.xot.is_text(n))?;
+    let q = s.xot.next_sibling(b).filter(|&n| s.xot.is_text(n))?;
+    let par = s.xot.parent(b)?;
+    match op {
+        "append" if a == par && s.xot.next_sibling(q).is_none() => Some("append"),
+        "insert_before" if s.xot.next_sibling(q) == Some(a) => Some("insert_before"),
+        "insert_after" if a == q => Some("insert_after"),
+        "prepend" if a == par && s.xot.first_child(par) == Some(p) => Some("prepend"),
+        "replace" if s.xot.next_sibling(q) == Some(a) => Some("replace"),
+        _ => None,
+    }
+}
+
 /// One call with the `forest spec` / `forest specx` lines and the oracles; false = stop the history.
 fn step(s: &mut Session, sink: &mut Sink, op: &str, req: &str, x: usize, y: usize, cons: &mut bool, restrict: bool) -> bool {
     sink.stat(&format!("op.{}", op));
@@ -143,6 +166,7 @@ fn step(s: &mut Session, sink: &mut Sink, op: &str, req: &str, x: usize, y: usiz
     let spec2_op = matches!(op, "clone" | "map_insert" | "map_remove" | "set_text" | "set_comment" | "set_pi_data" | "set_name" | "text_content_set");
     let nonnormal = *cons && has_adjacent_text(s);
     let pre = if spec_op { Some(observe(s, op, s.nodes[x], s.nodes[y])) } else { None };
+    let corner = if spec_op { selfmerge_geometry(s, op, s.nodes[x], s.nodes[y]) } else { None };
     // the compositions "create a node, then append it" and `new_document_with_element`
     let creation_move = matches!(op, "new_doc_with" | "append_text" | "append_element" | "append_comment" | "append_pi");
     let creation_other = crate::suite_fcreation::is_creation_op(op) && !creation_move;
@@ -216,8 +240,19 @@ fn step(s: &mut Session, sink: &mut Sink, op: &str, req: &str, x: usize, y: usiz
         sink.stat("spec.checked");
         sink.stat(&format!("spec.checked.{}", op));
     }
+    if let Some(g) = corner {
+        sink.stat(&format!("geometry.selfmerge.{}.{}", g, resp.split(' ').next().unwrap()));
+    }
     if spec_op && resp.starts_with("ok") {
         let pre = pre.unwrap();
+        if let Some(g) = corner {
+            // the moved node's data must now stand in the text node its neighbours have become
+            let mt = pre.moved_text.clone().unwrap_or_default();
+            let kept = s.live().iter().any(|&l| s.xot.text_str(s.nodes[l]).map(|t| t.contains(mt.as_str())).unwrap_or(false));
+            if !kept && !mt.is_empty() && op != "replace" {
+                sink.fail("C05", "C05:move-changes-character-data", &format!("{}: self-merge geometry ({}): the data `{}` of the moved text node is in no text node afterwards", req, g, mt), &s.history);
+            }
+        }
         if nonnormal {
             sink.stat("spec.prestate-has-adjacent-text");
         }
@@ -569,6 +604,84 @@ fn directed_creation(sink: &mut Sink) {
     }
 }
 
+/// Histories aimed at the self-merge geometry: an element whose children are mostly text nodes
+/// built with consolidation off, consolidation switched on, then moves of a text node standing
+/// between two text nodes to the place the old-place merge brings it to already (all four moves
+/// and `replace`), mixed with a few other moves of such nodes.
+fn selfmerge_history(rng: &mut Rng, sink: &mut Sink) {
+    let mut s = Session::new();
+    let mut cons = false;
+    s.exec(sink, "reset");
+    s.exec(sink, "cons 0");
+    let mut kids = vec![];
+    let n = 4 + rng.below(4);
+    for i in 0..n {
+        if rng.chance(4, 5) {
+            kids.push(GTree::leaf(GValue::Text(((b'a' + i as u8) as char).to_string())));
+        } else if rng.chance(1, 2) {
+            kids.push(GTree::leaf(GValue::Element(3)));
+        } else {
+            kids.push(GTree::leaf(GValue::Comment("c".into())));
+        }
+    }
+    build_ops(&mut s, sink, &GTree::new(GValue::Element(4), kids));
+    let mut kids2 = vec![];
+    for i in 0..rng.below(4) {
+        kids2.push(GTree::leaf(GValue::Text(((b'p' + i as u8) as char).to_string())));
+    }
+    build_ops(&mut s, sink, &GTree::new(GValue::Element(2), kids2));
+    s.exec(sink, "cons 1");
+    cons = cons || true;
+    for _ in 0..(2 + rng.below(5)) {
+        let live = s.live();
+        let idx = |n: Node| s.nodes.iter().position(|&m| m == n).unwrap();
+        let mut cands: Vec<(&'static str, usize, usize)> = vec![];
+        let mut others: Vec<(&'static str, usize, usize)> = vec![];
+        for &l in &live {
+            let b = s.nodes[l];
+            if !s.xot.is_text(b) {
+                continue;
+            }
+            let (p, q) = match (s.xot.previous_sibling(b), s.xot.next_sibling(b)) {
+                (Some(p), Some(q)) if s.xot.is_text(p) && s.xot.is_text(q) => (p, q),
+                _ => continue,
+            };
+            let par = s.xot.parent(b).unwrap();
+            match s.xot.next_sibling(q) {
+                None => cands.push(("append", idx(par), l)),
+                Some(r) => {
+                    cands.push(("insert_before", idx(r), l));
+                    cands.push(("replace", idx(r), l));
+                }
+            }
+            cands.push(("insert_after", idx(q), l));
+            if s.xot.first_child(par) == Some(p) {
+                cands.push(("prepend", idx(par), l));
+            }
+            // near misses: the same node moved elsewhere
+            others.push(("append", idx(par), l));
+            others.push(("prepend", idx(par), l));
+            others.push(("insert_before", idx(p), l));
+            others.push(("insert_after", idx(p), l));
+        }
+        let pick = if !cands.is_empty() && (others.is_empty() || rng.chance(3, 4)) {
+            *rng.pick(&cands)
+        } else if !others.is_empty() {
+            *rng.pick(&others)
+        } else {
+            break;
+        };
+        let (op, a, b) = pick;
+        let req = format!("{} {} {}", op, a, b);
+        sink.stat("selfmerge-directed.calls");
+        if !step(&mut s, sink, op, &req, a, b, &mut cons, true) {
+            return;
+        }
+        s.exec(sink, "dump");
+        s.exec(sink, "inv");
+    }
+}
+
 pub fn run(seed: u64, count: usize, tier: &str, sink: &mut Sink) {
     let mut rng = Rng::new(seed ^ 0xC05);
     let n_ops = if tier == "quick" { 25 } else { 60 };
@@ -582,6 +695,12 @@ pub fn run(seed: u64, count: usize, tier: &str, sink: &mut Sink) {
         exhaustive_adjacent_text(sink);
     }
     directed_creation(sink);
+    if tier != "search" {
+        let mut r2 = Rng::new(seed ^ 0x5E1F);
+        for _ in 0..(if tier == "quick" { 400 } else { 2000 }) {
+            selfmerge_history(&mut r2, sink);
+        }
+    }
     for i in 0..count {
         one_history(&mut rng, sink, n_ops, i % 4 == 3, restrict);
     }
